@@ -20,6 +20,13 @@ model      every model function of {tensortrax,jax}/models/hyperelastic executed
            lopez_pamies alpha, storakers alpha / beta, extended_tube beta, saint_venant_kirchhoff k) are
            universally quantified symbols in the `*=real` configurations (power atoms of the ring kernel:
            all real exponent values); the rational instantiations are kept (root-atom path).
+model_other  anisotropic / state dependent model functions; tensortrax `alexander` (energy value not evaluated: the
+           code writes down the dual number Tensor(NaN, A δ(I1), A Δ(I1), δ(A) Δ(I1) + A Δδ(I1)) by hand): the real
+           function is executed with f, δ, Δ, Δδ, Tensor rebound to a formal algebra of variations (vk/handdual.py);
+           the hand-built Tensor is checked to be the dual number of W(I1), dW/dI1 = A = exp(k (I1-3)^2) (formally,
+           and under the concrete reading δ = d/dC_ij, Δ = d/dC_kl against the derivatives of the contract atom W),
+           A a function of I1 alone, tangent as built == D(D(psi)) and symmetric; isotropy on the gradient
+           (R S(R^T C R) R^T == S(C)), stress-free reference and dilatation, documented energy (gradient form).
 """
 import contextlib
 import itertools
@@ -41,13 +48,14 @@ import felupe.constitution.tensortrax._material as TMAT
 import felupe.constitution.tensortrax._total_lagrange as TTL
 import felupe.constitution.tensortrax._updated_lagrange as TUL
 import felupe.constitution.tensortrax.models.hyperelastic as TT
+from vk import handdual as HD
 from vk import models as M
 from vk import oracle, ring, symnp
 from vk.core import Skip, contract
 from vk.ring import LP, co
 from vk.symnp import det_ref
 
-TRUSTED = M.TRUSTED + [
+TRUSTED = M.TRUSTED + HD.TRUSTED + [
     "C11: scipy.special.erf is the function atom erf (erf(0)=0, odd, erf' = 2/sqrt(pi) exp(-z^2)); np.maximum / np.isclose on symbolic values are decided by the branch oracle under the contract's `requires` (primary / unloading path of OgdenRoxburgh), exact equality for isclose",
     "C11: real exponents: ogden alpha_i, lopez_pamies alpha_r, storakers alpha_i / beta_i (both back ends), extended_tube beta (both back ends) and saint_venant_kirchhoff k (k != 2, k != 0: the code branches on k == 2 / k == 0, those two values are separate configurations) are universally quantified reals of the `*=real` configurations (power atoms pw = base**expo of the ring kernel, base > 0 logged, d pw = pw (expo d base / base + log(base) d expo), pw(1, e) = 1, pw(p, e + k) = pw(p, e) p^k, pw(root(p, n), e) = pw(p, e/n)); no assumption on the exponents except the denominators the executed code divides by (alpha_i != 0, beta_i != 0, k != 0: listed as side conditions).  The rational instantiations are kept as additional configurations (they exercise the root-atom path).  Still instantiated / not reached: saint_venant_kirchhoff_orthotropic k != 2 (eigh eigenvectors of a non-diagonal argument; no diagonal restriction for an anisotropic energy), micro-sphere p, q (21-point float sphere rule: the stress-free reference holds to table accuracy only; bounded native stand-in)",
     "C11: jax principal-stretch models (storakers, extended_tube) add a literal diag(0, +-1e-4) to C before eigvalsh: isotropy and the stress-free reference are proved for the real code object with that literal replaced by 0 (identity at perturbation 0); with the literal the reference stress is O(1e-4 * modulus)",
@@ -392,6 +400,10 @@ def model_params(vk, name, variant):
         return dict(mu=[p(f"mu{i}") for i in range(3)], lmbda=[p(f"lm{i}", 0.5) for i in range(6)], r1=[1, 0, 0], r2=[0, 1, 0], r3=[0, 0, 1])
     if name == "finite_strain_viscoelastic":
         return dict(mu=p("mu"), eta=p("eta", 2.0), dtime=p("dtime", 0.5))
+    if name == "alexander":
+        gamma = vk.reals("gamma", (), near=0.735, spread=0.2)
+        vk.requires(gamma, ">")  # log((I2 - 3 + gamma) / gamma): the offset-normalisation parameter is positive
+        return dict(C1=p("C1"), C2=p("C2", 1.25), C3=p("C3", 0.5), gamma=gamma, k=vk.reals("k", (), near=0.2, spread=0.1))
     raise KeyError(name)
 
 
@@ -572,6 +584,7 @@ def model(vk, cfg):
 # ================================================================================================
 # anisotropic / state dependent model functions, and the models only reachable natively
 OTHER_CONFIGS = [dict(model="saint_venant_kirchhoff_orthotropic")] + [dict(model="finite_strain_viscoelastic", part=q) for q in ("axis0", "axis1", "axis2", "reference")] + [ dict(model="ogden_roxburgh", path="primary"), dict(model="ogden_roxburgh", path="unloading"), dict(model="native-standins")]
+OTHER_CONFIGS += [dict(model="alexander", part=q) for q in ("dual", "axis0", "axis1", "axis2", "reference")]
 
 
 @contract("C11", "model_other", configs=OTHER_CONFIGS)
@@ -579,9 +592,13 @@ def model_other(vk, cfg):
     """orthotropic SVK: function of C only (objectivity by the wrapper contract), stress-free reference, and
     NOT isotropic (canary); finite_strain_viscoelastic: isotropic in (C, C_i) jointly, state update rotates
     with the reference frame, stress-free at the virgin state C_i = 1; tensortrax ogden_roxburgh: isotropic
-    softening function and history variable, stress-free virgin state; alexander / micro-sphere / MORPH:
-    bounded native stand-ins (not counted)"""
+    softening function and history variable, stress-free virgin state; alexander (hand-built dual number: AD
+    contract vk/handdual.py): the dual parts as built are the variations of W(I1), dW/dI1 = exp(k (I1-3)^2), isotropy
+    on the gradient, stress-free reference, symmetric second variation; micro-sphere / MORPH: bounded native
+    stand-ins (not counted)"""
     name = cfg["model"]
+    if name == "alexander":
+        return _alexander(vk, cfg["part"])
     if not vk.sym:
         return
     oracle.TIMEOUT_MS = 1500
@@ -665,8 +682,161 @@ def model_other(vk, cfg):
         vk.note("tensortrax ogden_roxburgh returns real_to_dual(eta(W), W): value eta, variation eta*dW (dependency contract); S = eta*2dW/dC")
 
 
+# ------------------------------------------------------------------------------------------------
+# alexander: tensortrax model function with a hand-built dual number (AD contract: vk/handdual.py)
+def model_ctx(backend, name, f):
+    """the rebinding context a model function is executed in symbolically"""
+    if backend == "tensortrax" and name == "alexander":
+        return HD.hand_dual(f)
+    return M.rebound(f)
+
+
+def alexander_energy(C, kw):
+    """the real model function on a symbolic C: psi with the contract atom W(I1) of the hand-built dual number"""
+    with HD.hand_dual(TT.alexander):
+        return co(TT.alexander(C, **kw))
+
+
+def dual_consistent(vk):
+    """every hand-built Tensor(...) of the run has the dual parts of real_to_dual(A, y)"""
+    if vk.sym:
+        ok, txt = HD.consistent()
+        vk.ensures_true("alexander/hand-built dual consistent in every evaluation (Δx == A.Δ(y), Δδx == δ(A).Δ(y) + A.Δδ(y))", ok, txt, backend="ring")
+
+
+def _alexander(vk, part):
+    f = TT.alexander
+    M.mark_real(vk, f, alias="felupe.constitution.tensortrax.models.hyperelastic.alexander")
+    HD.reset()
+    oracle.TIMEOUT_MS = 1500
+    kw = model_params(vk, "alexander", "")
+    C = M.sym_matrix(vk, "C", spread=0.12)
+    vk.requires(det_ref(C), ">")  # C = F^T F with det F > 0
+    TRI = [(i, j) for i in range(3) for j in range(i, 3)]
+    w = lambda i, j: 1 if i == j else Fr(1, 2)  # noqa: E731
+    vk.note("alexander: the energy value is not evaluated by the code (NaN); the contracts are stated on the variations: psi = C1.W(I1) + ... with the contract atom W of the hand-built dual number (dW/dI1 = exp(k (I1-3)^2)), dpsi/dC and d2psi/dCdC by the derivative operator D through the declared partial; objectivity / Kirchhoff symmetry / major symmetry of P(F), A(F) by the wrapper contract (C11/wrapper), whose premise 'psi is a twice differentiable function of C' is the `dual` part (dual parts as built == variations of W(I1), second variation symmetric)")
+    vk.note("model contracts are stated on the domain of the executed model code: bases of roots / arguments of log positive, denominators non-zero (listed as assumed side conditions)")
+
+    def tensor6(X):
+        return np.array([X[i, j] for i, j in TRI], dtype=object if vk.sym else float)
+
+    def native_grad(Cx):
+        import tensortrax as tr
+
+        G = np.asarray(tr.gradient(f, wrt=0, ntrax=0)(np.asarray(Cx, dtype=float), **native_kw(kw)))
+        return (G + G.T) / 2
+
+    if part.startswith("axis"):
+        k = int(part[-1])
+        t = vk.reals("t", (), near=0.4, spread=0.9)
+        R = M.rotation(t, k)
+        Cr = M.mm(M.tr_(R), M.mm(C, R))
+        name = f"isotropy/dpsi(R{k}^T.C.R{k})/dC==dpsi(C)/dC (R{k}.S(R{k}^T.C.R{k}).R{k}^T==S(C))"
+        if not vk.sym:
+            vk.ensures_eq(name, tensor6(M.mm(R, M.mm(native_grad(Cr), M.tr_(R)))), None)
+            return
+        psi = alexander_energy(C, kw)
+        psi_r = alexander_energy(Cr, kw)
+        grad = lambda e: np.array([ring.D(e, C[i, j]) * w(i, j) for i, j in TRI], dtype=object)  # noqa: E731
+        G, Gr = grad(psi), grad(psi_r)
+        vk.ensures_eq(name, Gr, G)
+        vk.ensures_eq(f"isotropy/psi(R{k}^T.C.R{k})==psi(C) (the energy with the contract atom W(I1) of the hand-built dual)", psi_r, psi)
+        vk.ensures_true("isotropy/the hand-built dual of the rotated argument is the same atom W(I1(C)), dW/dI1 = A(C)", len({r["gen"] for r in HD.RECORDS}) == 1, f"{len(HD.RECORDS)} constructions, {len({r['gen'] for r in HD.RECORDS})} atom(s)", backend="ring")
+        dual_consistent(vk)
+
+        def spoil(X):
+            Y = X.copy()
+            Y[0, 0] = X[0, 0] + X[0, 1] * X[0, 1]
+            return Y
+
+        # vacuity: a non-isotropic dependence on C (C00 + C01^2) must be refuted on the gradient as well
+        vk.canary("isotropy-of-dpsi(C+C01^2.e0e0)/dC", grad(alexander_energy(spoil(Cr), kw)), grad(alexander_energy(spoil(C), kw)))
+        return
+
+    if part == "reference":
+        name = "stress-free-reference/dpsi/dC(I)==0"
+        if not vk.sym:
+            S0 = native_reference_stress("tensortrax", "alexander", kw)
+            vk.ensures_zero(name, tensor6(S0))
+            return
+        psi = alexander_energy(C, kw)
+        one = {ring.gen_of(C[i, j]): (1 if i == j else 0) for i, j in TRI}
+        vk.ensures_zero(name, np.array([ring.evalat(ring.D(psi, C[i, j]), one) * w(i, j) for i, j in TRI], dtype=object))
+        # isochoric: no stress under a pure dilatation either (the invariants are those of det(C)^(-1/3) C)
+        s = vk.reals("s", (), near=1.3, spread=0.2)
+        vk.requires(s, ">")
+        dil = {ring.gen_of(C[i, j]): (s if i == j else 0) for i, j in TRI}
+        with M.canonical_roots():
+            vk.ensures_zero("stress-free-dilatation/dpsi/dC(s.I)==0", np.array([ring.subs(ring.D(psi, C[i, j]), dil) * w(i, j) for i, j in TRI], dtype=object))
+        dual_consistent(vk)
+        vk.canary("tangent-free-reference/d2psi/dC00dC00(I)==0", ring.evalat(ring.D(ring.D(psi, C[0, 0]), C[0, 0]), one), LP())
+        return
+
+    # part == "dual": the hand-built Tensor(...) IS the dual number of W(I1), dW/dI1 = exp(k (I1 - 3)^2)
+    hname = "second-variation-symmetric/d2psi/dC_ij.dC_kl==d2psi/dC_kl.dC_ij"
+    gname = "alexander/dpsi/dC == C1.exp(k.(I1-3)^2).dI1/dC + (C2/(I2-3+gamma) + C3).dI2/dC (docstring energy, invariants of det(C)^(-1/3).C)"
+    tname = "tangent/d2psi/dC.dC as built (second variation of the hand-built dual) == D(D(psi)) through the contract atom W(I1)"
+    if not vk.sym:
+        import tensortrax as tr
+
+        H = np.asarray(tr.hessian(f, wrt=0, ntrax=0)(np.asarray(C, dtype=float), **native_kw(kw)))
+        H = (H + H.transpose(1, 0, 2, 3) + H.transpose(0, 1, 3, 2) + H.transpose(1, 0, 3, 2)) / 4
+        H6 = np.array([[H[i, j, m, n] for m, n in TRI] for i, j in TRI])
+        vk.ensures_eq(gname, tensor6(native_grad(C)), None)
+        vk.ensures_eq(tname, H6, None)
+        vk.ensures_eq(hname, H6, None)
+        return
+    psi = alexander_energy(C, kw)
+    pre = "alexander/hand-built dual"
+    n = len(HD.RECORDS)
+    vk.ensures_true(f"{pre}: one Tensor(...) per evaluation of the model function", n == 1, f"{n} construction(s)", backend="exec")
+    if n != 1:
+        return
+    r = HD.RECORDS[0]
+    A, y, W = r["A"], r["y"], LP.gen(r["gen"])
+    # specification (docstring): invariants of the distortional part of C
+    trC = C[0, 0] + C[1, 1] + C[2, 2]
+    trCC = sum((C[i, j] * C[j, i] for i in range(3) for j in range(3)), LP())
+    J3 = co(det_ref(C)) ** Fr(-1, 3)
+    I1, I2 = J3 * trC, J3**2 * (trC**2 - trCC) / 2
+    kk, gam = kw["k"], kw["gamma"]
+    vk.ensures_true(f"{pre}: δx == A.δ(y)", True, f"δx = {r['dx']!r}"[:300], backend="ring")
+    vk.ensures_true(f"{pre}: Δx == A.Δ(y)", r["ok_first"], f"residual {r['res_first']}"[:300], backend="ring")
+    vk.ensures_true(f"{pre}: Δδx == δ(A).Δ(y) + A.Δδ(y)", r["ok_second"], f"residual {r['res_second']}"[:300], backend="ring")
+    vk.ensures_true(f"{pre}: the value x is not evaluated (NaN)", r["value_is_nan"], "", backend="exec")
+    vk.ensures_eq(f"{pre}: y == I1 = det(C)^(-1/3).tr(C)", y, I1)
+    vk.ensures_eq(f"{pre}: A == exp(k.(I1-3)^2)", A, ring.fn("exp", kk * (I1 - 3) ** 2))
+    vk.canary(f"{pre}: A == exp(k.(I1-3))", A, ring.fn("exp", kk * (I1 - 3)))
+    vk.ensures_eq(gname, np.array([ring.D(psi, C[i, j]) * w(i, j) for i, j in TRI], dtype=object), np.array([(kw["C1"] * ring.fn("exp", kk * (I1 - 3) ** 2) * ring.D(I1, C[i, j]) + (kw["C2"] / (I2 - 3 + gam) + kw["C3"]) * ring.D(I2, C[i, j])) * w(i, j) for i, j in TRI], dtype=object))
+    vk.ensures_eq("alexander/psi == C1.W(I1) + C2.log((I2-3+gamma)/gamma) + C3.(I2-3), I2 = det(C)^(-2/3).(tr(C)^2-tr(C^2))/2", psi, kw["C1"] * W + kw["C2"] * ring.fn("log", (I2 - 3 + gam) / gam) + kw["C3"] * (I2 - 3))
+    # A is a function of I1 alone: dA ^ dI1 == 0 (only then are the dual parts the variations of a function W(I1))
+    cs = [C[i, j] for i, j in TRI]
+    dA, dy = [ring.D(A, c) for c in cs], [ring.D(y, c) for c in cs]
+    vk.ensures_zero(f"{pre}: A is a function of I1 alone (dA^dI1==0)", np.array([dA[a] * dy[b] - dA[b] * dy[a] for a in range(6) for b in range(a + 1, 6)], dtype=object))
+    # the dual parts AS BUILT under the concrete reading δ = d/dc_a, Δ = d/dc_b, Δδ = d2/dc_a dc_b (c: the 6 free
+    # components of C) are the first and second derivatives of the contract atom
+    first = np.array([HD.interpret(r["dx"], lambda v, a=a: ring.D(v, cs[a]), None, None) for a in range(6)], dtype=object)
+    vk.ensures_eq(f"{pre}: δx as built (δ=d/dc_a) == dW/dc_a", first, np.array([ring.D(W, c) for c in cs], dtype=object))
+    second = np.empty((6, 6), dtype=object)
+    spec2 = np.empty((6, 6), dtype=object)
+    for a in range(6):
+        for b in range(6):
+            second[a, b] = HD.interpret(r["Ddx"], lambda v, a=a: ring.D(v, cs[a]), lambda v, b=b: ring.D(v, cs[b]), lambda v, a=a, b=b: ring.D(ring.D(v, cs[a]), cs[b]))
+            spec2[a, b] = ring.D(ring.D(W, cs[a]), cs[b])
+    # the model's own second variation (tensor derivative with respect to the symmetric C): through the contract atom
+    # (D twice), and AS BUILT (what tensortrax' hessian returns: the atom's second derivative replaced by the Δδx the code
+    # wrote down; native reading: the real tr.hessian) -- they agree, and the second variation is symmetric
+    ws = [w(i, j) for i, j in TRI]
+    H = np.array([[ring.D(ring.D(psi, cs[a]), cs[b]) * ws[a] * ws[b] for b in range(6)] for a in range(6)], dtype=object)
+    pW = HD.atom_partial(psi, r["gen"])
+    Hb = np.array([[H[a, b] + pW * (second[a, b] - spec2[a, b]) * ws[a] * ws[b] for b in range(6)] for a in range(6)], dtype=object)
+    vk.ensures_eq(tname, Hb, H)
+    vk.ensures_eq(hname, Hb, Hb.T)
+    vk.ensures_eq(f"{pre}: Δδx as built (δ=d/dc_a, Δ=d/dc_b) == d2W/dc_a.dc_b", second, spec2)
+
+
 def _native_standins(vk):
-    """alexander (hand-built dual numbers), micro-sphere models (float sphere rule) and the MORPH Lagrange
+    """micro-sphere models (float sphere rule) and the MORPH Lagrange
     models cannot be executed symbolically: bounded native checks with the real classes, labelled, not counted.
     (objectivity / Kirchhoff symmetry of these models follow from the wrapper / lagrange contracts because
     they are used through Hyperelastic(psi(C)) resp. Material(total_lagrange(S(F^T F))))"""
@@ -678,7 +848,6 @@ def _native_standins(vk):
         return q * np.linalg.det(q)
 
     cases = {
-        "alexander": lambda: fem.Hyperelastic(fem.alexander, C1=17.0, C2=19.85, C3=1.0, gamma=0.735, k=0.00015),
         "miehe_goektepe_lulei": lambda: fem.Hyperelastic(fem.miehe_goektepe_lulei, mu=0.1475, N=3.273, p=9.31, U=9.94, q=0.567),
         "jax.miehe_goektepe_lulei": lambda: _jax64(lambda: mj.Hyperelastic(JX.miehe_goektepe_lulei, mu=0.1475, N=3.273, p=9.31, U=9.94, q=0.567)),
     }
@@ -735,7 +904,7 @@ def _native_standins(vk):
             except Exception as e:  # pragma: no cover
                 vk.bounded_standin(f"{nm2}: native history stand-in failed", "-", 0, False, f"{type(e).__name__}: {str(e)[:120]}")
     vk.note("MORPH Lagrange models (expm / eigvalsh of general arguments): objectivity and Kirchhoff symmetry follow from the lagrange wrapper contract if S depends on F through F^T F only; for the concrete functions this is only checked by the bounded native stand-ins")
-    vk.note("not decided (bounded stand-ins only): stress-free reference and isotropy of alexander (hand-built dual numbers, no energy value), stress-free reference of the micro-sphere models (21-point float sphere rule: holds to table accuracy only); micro-sphere models are excluded from the isotropy clause by the property")
+    vk.note("not decided (bounded stand-ins only): stress-free reference of the micro-sphere models (21-point float sphere rule: holds to table accuracy only); micro-sphere models are excluded from the isotropy clause by the property")
 
 
 def _jax64(fac):
